@@ -255,6 +255,8 @@ static int gen_json_printer_union_member(fb_output_t *out, fb_compound_type_t *c
     }
     fprintf(out->fp,
                 "    default:\n"
+                "        /* A member of a kind this schema does not know has no printable value. */\n"
+                "        flatcc_json_printer_write(ctx, \"null\", 4);\n"
                 "        break;\n");
     fprintf(out->fp,
             "    }\n}\n\n");
